@@ -408,5 +408,15 @@ def directed():
         yield {"op": "vla", "widths": [2, 4, 3], "arrays": [[[1, 2], [3, 4], [5, 6]], [[3, 4, 5, 6], [7, 8, 9, 1]], [[2, 3, 4], [5, 6, 7]]], "order": order}
 
 
+def const_case(rng, tier, s, form):
+    """a number taken from the library source (+-1) as the length of the table"""
+    if form not in ("rows", "cells", "nonempty") or s > 300000:
+        return None
+    ops = [o for o in OPS if o not in ("vla",)]
+    if s > 5000:
+        ops = [o for o in ops if o not in ("iter", "inherit")] or ops
+    return gen_case(rng, tier, op=rng.choice(ops), L=s)
+
+
 def random_case(rng, tier):
     return gen_case(rng, tier)
